@@ -243,6 +243,22 @@ impl Parser {
                         let span = node.as_span();
                         let mut ident = Self::ident(node).to_err_vec()?;
 
+                        if let Some(existing) = input
+                            .user_data()
+                            .has_name_been_mapped_in_function(ident.name())
+                        {
+                            if existing.is_const() {
+                                return Err(vec![new_err(
+                                    span,
+                                    &input.user_data().get_source_file_name(),
+                                    format!(
+                                        "cannot use `{}` as a loop counter, it is a `const` variable",
+                                        ident.name()
+                                    ),
+                                )]);
+                            }
+                        }
+
                         ident
                             .link_force_no_inherit(
                                 input.user_data(),
